@@ -361,6 +361,31 @@ def run(ctx):
                 if len(tr.sent) != 2 or not any(b"AAAA" in m for m in sent) or not any(b">BB<" in m for m in sent):
                     ctx.fail("requests sent do not carry each call's own arguments", meta,
                              [m[-120:].decode("utf-8", "replace") for m in sent], "one request per call with its argument")
+        # line by line inside the functions that write state shared by all calls (generated table): the second call runs
+        # in the middle of every such write, then a third call runs alone and must still be right
+        run_schedule([call(client, "AAAA"), call(client, "BB")], {}, granularity="line", watch=memo_writers())
+        inside_lines = list(WATCHED)
+        ctx.dist["line events inside shared-state writers:" + style] += len(inside_lines)
+        lstep = max(1, len(inside_lines) // ctx.pick(100, 100000))
+        if "CCC" not in ref:
+            ref["CCC"] = call(client, "CCC")()
+        for k in inside_lines[::lstep]:
+            del tr.sent[:]
+            res, nev, errs = run_schedule([call(client, "AAAA"), call(client, "BB")], {k: 1}, granularity="line")
+            meta = {"style": style, "scenario": "two-calls/line-in-writer", "preempt_after_line_event": k}
+            ctx.case(common.canon(meta), True)
+            ctx.dist["schedule:" + style + "/writer-lines"] += 1
+            if errs:
+                ctx.fail("scheduler problem (deadlock between paused threads)", meta, errs, "both calls finish")
+                continue
+            got = [r[1] if r and r[0] == "ok" else r for r in res]
+            try:
+                after = call(client, "CCC")()
+            except Exception as e:
+                after = "%s: %s" % (type(e).__name__, str(e)[:120])
+            if got != [ref["AAAA"], ref["BB"]] or after != ref["CCC"]:
+                ctx.fail("a call failed or returned another call's data under this interleaving (or the call made "
+                         "after it did)", meta, got + [after], [ref["AAAA"], ref["BB"], ref["CCC"]])
         # cold start: a freshly loaded WSDL per interleaving, so the memo cells are filled *during* the race
         cold, ctr = make_client(style)
         run_schedule([call(cold, "AAAA"), call(cold, "BB")], {}, watch=memo_writers())
